@@ -823,3 +823,32 @@ Proof.
           [LStep I CRun; LStep I CRun; LStep I CRun; LStep I CRun; LStep I CRun; LStep I CRun; LStep I CRun; LStep I CRun]) true false.
   repeat split; reflexivity.
 Qed.
+
+(* ---------- the WaitCondition counting contract ---------- *)
+
+(* A Wait() entered (or pending) while the condition's notification count is positive returns at once and zeroes the count:
+   in wait-condition mode no receive stays parked while its count is positive.  (This is what makes "signal only on the
+   empty -> non-empty transition" sufficient even when a stale notification is left behind by a receive that found its
+   Message without waiting; both WaitAux and the timed WaitUntilAux of WaitCondition.h must honour it.) *)
+Theorem wait_returns_at_once_when_notified : forall early absorb_n nl react g x w k,
+  g_sockets g = false -> (0 < c_wc (ch g x))%N ->
+  step early absorb_n nl react CRun g (mkL (PRecvPark x w) k) =
+  Some (set_ch x (with_wc (ch g x) 0%N) g, mkL (PRecvAbsorb x w) k, [EWoken]).
+Proof.
+  intros early absorb_n nl react g x w k Hs Hc. unfold step. simpl.
+  assert (Hw : wakeable g x = true).
+  { unfold wakeable, readable. rewrite Hs. apply N.ltb_lt in Hc. rewrite Hc. reflexivity. }
+  rewrite Hw, Hs. destruct w; reflexivity.
+Qed.
+
+Theorem no_receive_parks_while_notified : forall early absorb_n nl react s t x w,
+  g_sockets (s_g s) = false -> l_pc (s_l s t) = PRecvPark x w -> (0 < c_wc (ch (s_g s) x))%N ->
+  exists s', sys_step early absorb_n nl react s (LStep (U t) CRun) = Some (s', [EWoken]) /\
+             c_wc (ch (s_g s') x) = 0%N /\ l_pc (s_l s' t) = PRecvAbsorb x w.
+Proof.
+  intros early absorb_n nl react s t x w Hs Hp Hc. simpl.
+  destruct (s_l s t) as [p k] eqn:El. simpl in Hp. subst p.
+  rewrite (wait_returns_at_once_when_notified early absorb_n nl react _ x w k Hs Hc).
+  eexists. split; [reflexivity|]. simpl. split; [rewrite ch_set_same; reflexivity|].
+  unfold upd. rewrite Nat.eqb_refl. reflexivity.
+Qed.
